@@ -598,7 +598,7 @@ func scaleTree(c *Config) {
 			if n >= 100000 && si != 1 {
 				continue
 			}
-			emit(c, treeCase(c.Rng, shape, n, periods[(k*5+si)%len(periods)], cfgs[(k+si)%len(cfgs)]))
+			emit(c, treeCase(c.Rng, shape, n, periods[(k*5+si)%len(periods)], cfgs[(k+k/4)%len(cfgs)]))
 			k++
 		}
 	}
